@@ -22,7 +22,9 @@ ASSUMPTIONS = [
     "lxml parses the serialisation; the lint rules are the ones stated in the property",
     "names containing control characters (newline...) are outside the documented rule: either outcome accepted",
     "NamedRange names: only the documented classes are judged (ASCII punctuation/blank rejected, [A-Za-z]+[0-9]+ rejected, "
-    "[A-Za-z_][A-Za-z0-9_]* otherwise accepted); for digit-first / non-ASCII names only 'ValueError or accepted'",
+    "[A-Za-z_][A-Za-z0-9_]* otherwise accepted; a name with non-ASCII letters made of letters, ASCII digits and '_' with a "
+    "letter or '_' first is accepted - column letters are A-Z only, so 'é1' is no cell reference); for digit-first names and "
+    "non-ASCII digits/punctuation only 'ValueError or accepted'",
 ]
 
 FORBIDDEN = set("[]*?:/\\")
@@ -98,6 +100,11 @@ def named_range_expect(name):
             return "value"
         if re.fullmatch(r"[A-Za-z_][A-Za-z0-9_]*", s):
             return ("ok", s)
+        return None
+    # letters of other scripts are letters for office applications too, and never part of a cell reference (column letters
+    # are A-Z only): letter/underscore first, then letters, ASCII digits and underscores
+    if (s[0].isalpha() or s[0] == "_") and all(c.isalpha() or c in string.digits or c == "_" for c in s):
+        return ("ok", s)
     return None
 
 
@@ -108,8 +115,22 @@ def check_named_range_name(ctx, name):
     exp = named_range_expect(name)
     ctx.ev()
     ctx.nontrivial(("nr", name))
+    via = len(name) % 3 if isinstance(name, str) else 0
     try:
-        nr = NamedRange(name, "A1:B2", "T")
+        if via == 0:
+            nr = NamedRange(name, "A1:B2", "T")
+        elif via == 1:
+            nr = NamedRange("seed_name", "A1:B2", "T")
+            nr.name = name
+        else:
+            from odfdo import Document, Table
+
+            doc = Document("spreadsheet")
+            doc.body.clear()
+            tb = Table("T", width=2, height=2)
+            doc.body.append(tb)
+            tb.set_named_range(name, "A1:B2")
+            nr = tb.get_named_ranges()[0]
         got = ("ok", nr.name)
     except ValueError:
         got = "value"
@@ -153,6 +174,9 @@ def run_shard(ctx):
         st.from_regex(r"[A-Za-z]{1,3}[0-9]{1,3}", fullmatch=True),
         st.from_regex(r"[A-Za-z_][A-Za-z0-9_]{0,5}", fullmatch=True),
         st.from_regex(r"[A-Za-z]{1,2}[0-9]{1,2}[A-Za-z_]", fullmatch=True),
+        st.from_regex(r"[a-zéßü中д]{1,4}[0-9]{1,4}", fullmatch=True),
+        st.from_regex(r"[a-zA-Zéß中_][a-zA-Z0-9éß中_]{0,5}", fullmatch=True),
+        st.sampled_from(["é1", "données2024", "größe1", "Straße12", "中1", "aé1", "é_1", "A1", "ab12", "XFD1", "x٣"]),
     )
 
     def mk2():
